@@ -35,6 +35,7 @@ type Eng struct {
 	intField map[int]*types.Basic
 	macros   map[string]map[string]bool
 	notes    map[string]bool
+	mtab     map[string]*Macro
 }
 
 // GuardRule is an automatic obligation attached to stores into certain heap components.
@@ -117,7 +118,13 @@ func (e *Eng) prescan() {
 	// only what the functions under contract and the contract text mention becomes part of the
 	// modelled heap (keeps the Heap datatype, and every query, small)
 	text := e.cs.allText()
-	for _, m := range e.pkg.Members {
+	var memberNames []string
+	for n := range e.pkg.Members {
+		memberNames = append(memberNames, n)
+	}
+	sort.Strings(memberNames)
+	for _, mn := range memberNames {
+		m := e.pkg.Members[mn]
 		switch x := m.(type) {
 		case *ssa.Global:
 			if strings.Contains(text, "G."+x.Name()) {
